@@ -141,6 +141,36 @@ if __name__ == '__main__':
         print('rc =', rc)
     elif cmd == 'matrix':
         matrix(sys.argv[2:])
+    elif cmd == 'intake':
+        # intake <worktree-id> <name> <prop>: collect, verify, run the quick check, write meta.json, drop the agent's worktree
+        wt, name, prop = sys.argv[2:5]
+        collect(wt, name)
+        res = verify(name)
+        rc, out = run(name, prop, ['--tier', 'quick'])
+        lines = [l for l in out.splitlines() if l.startswith(('VIOLATION', 'KNOWN-FINDING', 'INCONCLUSIVE', 'HELD'))]
+        print('\n'.join(l[:400] for l in lines[:6]))
+        print('check rc =', rc)
+        mp = os.path.join(SEEDED, name, 'meta.json')
+        meta = json.load(open(mp)) if os.path.exists(mp) else {}
+        meta.update({'property': prop, 'verification': res,
+                     'check': {'command': './check %s --tier quick (TV_REPO=<scratch worktree with patch.diff applied>)' % prop,
+                               'rc': rc, 'caught': rc == 1, 'first_lines': [l[:300] for l in lines[:3]]}})
+        json.dump(meta, open(mp, 'w'), indent=1)
+        if res.get('confirmed'):
+            drop('/tmp/wt/%s' % wt)
+    elif cmd == 'recheck':
+        # recheck <name>...: run the property's quick check against the patched scratch tree again and update meta.json
+        for name in sys.argv[2:]:
+            mp = os.path.join(SEEDED, name, 'meta.json')
+            meta = json.load(open(mp))
+            prop = meta['property']
+            rc, out = run(name, prop, ['--tier', 'quick'])
+            lines = [l for l in out.splitlines() if l.startswith(('VIOLATION', 'KNOWN-FINDING', 'INCONCLUSIVE', 'HELD'))]
+            meta['check'] = {'command': './check %s --tier quick (TV_REPO=<scratch worktree with patch.diff applied>)' % prop,
+                             'rc': rc, 'caught': rc == 1, 'first_lines': [l[:300] for l in lines[:3]]}
+            json.dump(meta, open(mp, 'w'), indent=1)
+            print(name, prop, 'rc=%d' % rc, 'CAUGHT' if rc == 1 else 'MISSED')
+            sys.stdout.flush()
     elif cmd == 'verifyall':
         for n in (sys.argv[2:] or sorted(os.listdir(SEEDED))):
             mp = os.path.join(SEEDED, n, 'meta.json')
